@@ -434,7 +434,7 @@ def evolve(pkg: M.Package, rng: Rng, n: int, kinds) -> tuple:
 RECORD_EDITS = ["add_optional_field", "remove_optional_field", "reorder_fields", "add_field", "remove_field", "widen_field", "make_optional", "widen_vector_field", "make_required"]
 
 
-def with_versions(pkg: M.Package, rng: Rng, n_versions: int, partial: bool, must_edit=(), order="oldest_first", p_new_protocol=0.0, layout="siblings", widen_steps=(), widen_aliases=(), union_steps=(), to_union_steps=(), tail_records=(), fixed_vector_records=(), reorder_only=(), enum_bases=()) -> M.Package:
+def with_versions(pkg: M.Package, rng: Rng, n_versions: int, partial: bool, must_edit=(), order="oldest_first", p_new_protocol=0.0, layout="siblings", widen_steps=(), widen_aliases=(), union_steps=(), to_union_steps=(), tail_records=(), fixed_vector_records=(), reorder_only=(), enum_bases=(), tail_p=0.6) -> M.Package:
     """Treat pkg as the oldest version; evolve it n_versions times; the newest package lists all
     its predecessors under `versions:`.  Returns the newest package.
     must_edit: names of records that each get at least one record edit in every evolution step.
@@ -495,7 +495,7 @@ def with_versions(pkg: M.Package, rng: Rng, n_versions: int, partial: bool, must
                 if d:
                     l.append(d)
         r7 = rng.fork("tail", i)
-        if partial and tail_records and r7.chance(0.6):
+        if partial and tail_records and r7.chance(tail_p):
             d = apply_edit(cur, r7, "remove_last_field", only=tuple(tail_records))
             if d:
                 l.append(d)
